@@ -1,15 +1,15 @@
 """C08 - a constrained solver returns exactly the compliant solutions."""
 from .. import mir, util, opw
 from ..mir import cname, strip, callee_name, show
-from . import C11
+from . import C11, C07
 
 EXPLANATION = ('Decides from MIR: (R08.1) on every return path of the four inverse entry points of OPWKinematics the outermost producer of the '
                'returned vector is the limits filter (role: Some(c) -> Constraints::filter(c, x), None -> x) or a sibling entry point for which '
                'the same holds; (R08.2) no other element-removing operation touches solution vectors in the solver; (R08.3) the singular candidate '
                'is pushed only on the true edge of the limits check for that same candidate; (R08.4) every wrapper returns the inner constraints() '
                'and applies no element-wise write to the solutions after the inner (filtered) call.  With C07 deciding what the filter accepts, '
-               'nothing numerical remains.')
-NOT_DECIDED = 'what the filter accepts is C07; nothing else'
+               'the acceptance predicate itself (arc membership) is re-checked with the rules of C07 (R07.E, R07.2a, R07.2c, R07.3).')
+NOT_DECIDED = 'behaviour inside the excluded margin around the arc ends (see C07); nothing else'
 ASSUMPTIONS = ['Constraints::filter keeps exactly the compliant elements (R07.3, checked under C07)']
 
 
@@ -90,6 +90,8 @@ def run(ctx):
                   'a candidate is pushed into the result without passing the limits check for that candidate', found=show(elem, maxdepth=3))
     # a solver rewritten without a singular push has nothing to gate; then the instance count is 0 and that is fine
 
+    run_dependencies(ctx)
+
     # R08.4 wrappers
     kf = util.kin_fields(prog)
     wrappers = [w for w in util.kin_impls(prog) if w in kf]
@@ -126,6 +128,12 @@ def run(ctx):
                     why = 'solutions are modified after the inner solver applied the joint limits: ' + _describe_mods(b)
                 ok = False
             ctx.check(ok, 'R08.4', '%s/%s' % (w, m), b.where(vv[0][0]), b.path, why, detail='inner result returned as filtered')
+
+
+def run_dependencies(ctx):
+    """R08.5: what the limits filter accepts is arc membership - the clauses of C07 that C08 relies on are re-checked here
+    (a change that breaks the acceptance predicate breaks C08 as much as C07)."""
+    C07.run(ctx)
 
 
 def _is_mutb(t):
